@@ -36,6 +36,9 @@ ASSUMPTIONS = [
     "implied volatility: |iv - sigma| <= 2 precision only where price(sigma +- precision) strictly bracket the quoted price; otherwise "
     "price(iv) must reproduce the quoted price to price resolution",
 ]
+ANCHORS = ['pfhedge._utils.bisect:bisect',
+           'pfhedge._utils.bisect:find_implied_volatility']
+PYTEST_WORKLOAD = True  # thorough tier also runs /repo/tests with these passive monitors attached (DESIGN.md 2.7)
 DECIDING = ["bisect.post", "bisect.analytic", "bisect.abort", "iv.european", "iv.american_binary", "iv.lookback", "iv.european_binary"]
 REQUIRED_BRANCHES = ["bisect.decreasing", "bisect.increasing", "bisect.tensor_bracket", "bisect.from.quadratic_cvar", "bisect.from.cash",
                      "bisect.from.implied_volatility"]
